@@ -17,12 +17,16 @@ PROP = {
         "Sonic.Props.C01.C01_cancel_result",
         "Sonic.Props.C01.C01_close_silences",
         "Sonic.Props.C01.C01_start_on_closed_not_registered",
+        "Sonic.Props.C01.C01_ledger_accepts_model",
+        "Sonic.Props.C01.C01_callback_only_when_owed",
+        "Sonic.Model.Loop.step_sim",
+        "Sonic.Model.Loop.step_linv",
     ],
     "runs": LOOP_RUNS,
     "keys": ["callback-twice", "callback-after-close", "callback-of-starting-op-outside-its-call", "deferred-callback-outside-poll",
              "cancelled-result-without-cancel", "cancel-completed-with-success", "cancel-left-operation-in-flight",
              "operation-never-completed-although-ready", "callback-of-unknown-op", "handler-nesting-broken", "return-without-call",
-             "op-id-reused", "panic"],
+             "op-id-reused", "panic", "ledger-callback-not-owed", "ledger-structure"],
     "secondary_keys": ["operation-never-completed-although-ready", "cancel-left-operation-in-flight"],
     "rule": LOOP_RULE,
     "trusted_base": LOOP_TB,
@@ -38,9 +42,13 @@ PROP = {
                       "start call or is registered, never both; a completed start frame admits no second callback; the poller and "
                       "Cancel clear the interest before running the handler; Cancel cannot return while an interest of the object is "
                       "registered and delivers only cancellation/de-registration errors; Close leaves no interest and no registry "
-                      "entry behind; a start on a closed object registers nothing. The trace-level statement 'every op id is entered "
-                      "at most once, never after Close, exactly once by Cancel, and eventually if ready' is decided by the ledger "
-                      "monitor on the real loop's traces (which the model must also accept); liveness is kernel-dependent.",
+                      "entry behind; a start on a closed object registers nothing. And over the API-level ledger `Sonic.Spec.Ledger` (sees only "
+                      "calls, callback entries and returns): every history of the model that respects the documented usage is accepted "
+                      "by the ledger (C01_ledger_accepts_model, by the coupling step_sim over all transitions): a callback is entered "
+                      "only inline in its own starting call or for an operation that is owed — never twice, never after Close, never "
+                      "after a successful Cancel, never for a schedule that was cancelled or replaced (C01_callback_only_when_owed). The real "
+                      "loop's traces must be accepted by the model, by the ledger and by the trace monitor; 'eventually, if ready' "
+                      "(liveness) is decided on real traces only (kernel-dependent).",
         "design_ref": "5/C01",
         "level_note": "Trusted: Lean kernel; hand-written loop model tied to the code by trace acceptance; kernel readiness read off the "
                       "trace and cross-checked with poll(2). Not proven: liveness ('never zero times'), which needs the kernel to "
